@@ -234,6 +234,12 @@ var c19Modules = []string{
 	"Loud%d := Str.bear({p: m{\"<<loud>>\".p}, loud: true})\nlm := %%{Loud%d.new(\"zebra%d\"): 1}\nlm[Loud%d.new(\"yak%d\")].p",
 	"Shout%d := \"s\".bear({shout: %d})\n{a: 1}.which(Shout%d.new(\"gnu%d\")).p", "Tag%d := Str.bear({tag: %d})\n(Tag%d.new(\"emu%d\") == \"emu%d\").p\n{q: 1}[Tag%d.new(\"ibis%d\")].p",
 	"MyI%d := Int.bear({mine: true})\n%%{MyI%d.new(%d): 1}.keys.p", "Sy%d := 'fox%d.bear({sy: 1})\n%%{Sy%d: 2}[Sy%d].p",
+	// descendants of the literal types with props of their own / overridden props, used on their instances
+	"Shout%d := Str.bear({shout: m{\"!\" + self}, S: m{\"<shout>\"}, len: m{99}})\nsh := Shout%d.new(\"hey\")\n[sh.shout, sh.S, sh.len].p",
+	"Hex%d := Int.bear({S: m{\"0xff\"}, double: m{self * 2}, '+: m{|o| 'plus}})\nhx := Hex%d.new(255)\n[hx.S, hx.double, hx + 1].p\nhx.p",
+	"Ar%d := Arr.bear({first2: m{self[0:2]}, len: m{99}, S: m{\"<arr>\"}})\nar := Ar%d.new([1, 2, 3])\n[ar.len, ar.first2, ar.S].p",
+	"Fl%d := Float.bear({S: m{\"<float>\"}, half: m{self / 2}})\n[Fl%d.new(2.5).S, Fl%d.new(3.0).half].p", "Nl%d := Nil.bear({S: m{\"<nil>\"}, none?: true})\n[Nl%d.S, Nl%d.none?].p",
+	"Rg%d := Range.bear({S: m{\"<range>\"}, span: m{.stop - .start}})\n[Rg%d.new(1, 5).S, Rg%d.new(1, 5).span].p", "Mp%d := Map.bear({S: m{\"<map>\"}, one?: true})\n[Mp%d.new(%%{1: 2}).S, Mp%d.one?].p",
 }
 
 var c19Fresh = 0
@@ -250,6 +256,23 @@ func c19LeakProbes(progs []string) []string {
 		}
 		if strings.Contains(p, "invite!(") {
 			out = append(out, "message.p", "{|| message}().p")
+		}
+		// plain literals answer with the built-in props, whatever descendants did before
+		for _, mp := range []struct {
+			marker string
+			probes []string
+		}{
+			{"Str.bear({shout", []string{"\"abc\".shout.p", "[\"abc\".S, \"abc\".len].p", "\"abc\".p"}},
+			{"Int.bear({S", []string{"255.p", "[255.S, 255 + 1].p", "4.double.p"}},
+			{"Arr.bear({first2", []string{"[1, 2, 3].len.p", "[1].first2.p", "[1, 2].S.p"}},
+			{"Float.bear({S", []string{"2.5.S.p", "3.0.half.p"}},
+			{"Nil.bear({S", []string{"nil.S.p", "nil.none?.p"}},
+			{"Range.bear({S", []string{"(1:5).S.p", "(1:5).span.p"}},
+			{"Map.bear({S", []string{"%{1: 2}.S.p", "%{}.one?.p"}},
+		} {
+			if strings.Contains(p, mp.marker) {
+				out = append(out, mp.probes...)
+			}
 		}
 	}
 	return out
@@ -532,12 +555,22 @@ func c19ImportCase(c *Ctx) {
 	nd := 2 + c.Rng.Intn(3)
 	files := map[string]string{}
 	order := []string{}
+	// in half of the cases every directory has a byte-identical helper whose function raises when the probe calls it:
+	// the report names the probe's own helper file, not a file only an earlier program touched
+	same := c.Rng.Intn(2) == 0
 	for d := 0; d < nd; d++ {
 		dn := fmt.Sprintf("d%d", d)
 		files[dn+"/helper.pangaea"] = fmt.Sprintf("name := \"mod%d\"\nv%d := %d\n", d, d, c.Rng.Intn(50))
 		body := "h := import(\"./helper\")\nh.name.p\nh.keys.p\n"
 		if c.Rng.Intn(3) == 0 {
 			body += "h2 := import(\"./helper\")\n(h2.name == h.name).p\n"
+		}
+		if same {
+			files[dn+"/helper.pangaea"] = "name := \"mod\"\n\nboom := {|x|\n  x.nonexistent\n}\nok := {|x| x}\n"
+			body += "h.ok(1).p\n"
+			if d == nd-1 {
+				body += "h.boom(1)\n\"unreachable\".p\n"
+			}
 		}
 		files[dn+"/t_test.pangaea"] = body
 		order = append(order, dn)
